@@ -113,7 +113,7 @@ Definition oracle_c03 (s : osel) (p : list byte) (sched : list bool) (out : val)
       let state_ok :=
         forallb (fun ri =>
                    match vargs "t" (snd ri), fst ri with
-                   | Some [VBool hr; VBool ab; VB pv; var], VB rem =>
+                   | Some [VBool hr; VBool ab; VB pv; var; _], VB rem =>
                        beq_list pv rem
                        && (match var with VN => true | VC t [] => tag_is t (match s with OU => "tu" | OW => "tw" end) | _ => false end)
                        && (match s with
@@ -127,7 +127,25 @@ Definition oracle_c03 (s : osel) (p : list byte) (sched : list bool) (out : val)
         val_eqb (VL isteps)
                 (VL (map (fun cr => vpair (match vsome (fst cr) with Some c => VSome (VB (comp_bytes_enc s c)) | None => VN end) (snd cr))
                          (combine cvals rems))) in
-      ob (seq_ok && slice_ok && order_ok && gap_ok && iter_ok && state_ok)
+      (* 7. a Windows iterator reports the path's prefix exactly until it has handed it out (from either end) *)
+      let pfx := match ospec s p with WPrefix raw k :: _ => VSome (vpair (VB raw) (e_wkind k)) | _ => VN end in
+      let yielded :=
+        (fix go (l : list val) (seen : bool) : list bool :=
+           match l with
+           | [] => []
+           | c :: r => let seen' := seen || match vsome c with Some (VC t [_; _]) => tag_is t "Px" | _ => false end in seen' :: go r seen'
+           end) cvals false in
+      let prefix_ok :=
+        forallb (fun iy : val * bool =>
+                   match vargs "t" (fst iy) with
+                   | Some [_; _; _; var; px] =>
+                       match s, var with
+                       | OW, VN => val_eqb px (if snd iy then VN else pfx)
+                       | _, _ => is_vn px
+                       end
+                   | _ => false
+                   end) (combine its yielded) in
+      ob (seq_ok && slice_ok && order_ok && gap_ok && iter_ok && state_ok && prefix_ok)
   | _ => fail
   end.
 
@@ -146,7 +164,8 @@ Fixpoint chain_ok (s : osel) (l : list (list byte)) : bool :=
   end.
 Definition oracle_c09 (s : osel) (p : list byte) (out : val) : N :=
   match vargs "c09" out with
-  | Some [par; VL anc; VL [snap]] =>
+  | Some [par; VL anc; VL [snap]; VL vars] =>
+      let vars_ok := forallb (fun v => match v with VC t [] => tag_is t (match s with OU => "tu" | OW => "tw" end) | _ => false end) vars in
       let par_ok :=
         match obytes par with
         | Some None => no_parent s p
@@ -162,7 +181,7 @@ Definition oracle_c09 (s : osel) (p : list byte) (out : val) : N :=
         | Some [VB buf; VBool res; _], Some None => negb res && beq_list buf p
         | _, _ => false
         end in
-      ob (par_ok && anc_ok && pop_ok)
+      ob (par_ok && anc_ok && pop_ok && vars_ok)
   | _ => fail
   end.
 
